@@ -183,6 +183,10 @@ class FrameAnalyzer:
             return base.fields[node.attr]
         if base.imm:
             return UNKNOWN if not base.is_fresh() else IMM
+        if node.attr == '__dict__' and base.is_fresh():
+            # the attribute dictionary of an object created in this call (also by copy.copy, which makes a new dictionary) belongs to that object:
+            # removing or setting a key changes the fresh object only
+            return AV({('fresh', f'__dict__@{getattr(node, "lineno", 0)}')}, base.elems)
         outs = set()
         for k, p in base.origins:
             if k == 'ext':
@@ -651,7 +655,7 @@ _orig_attr = FrameAnalyzer.e_Attribute
 
 def _e_attribute(self, node, env):
     base = self.ev(node.value, env)
-    if isinstance(base, CopyAV) and node.attr not in base.fields:
+    if isinstance(base, CopyAV) and node.attr not in base.fields and node.attr != '__dict__':
         return AV({('ext', f'{p}.{node.attr}') for p in base.src_paths} or {('ext', '?')})
     return _orig_attr(self, node, env)
 
